@@ -267,6 +267,9 @@ func GenSpec(r *Rng, p SigProfile, now time.Time) *SigSpec {
 	if hasBody && len(s.Body) > 0 && !IsStreaming(s.Mode) && r.Chance(1, 8) {
 		s.TEChunk = true
 	}
+	if r.Chance(1, 3) {
+		s.Respell(r)
+	}
 	// the query-string carrier combined with the other payload modes (one request in five)
 	if s.Mode != ModePresign && r.Chance(1, 5) {
 		s.Presign = true
